@@ -111,8 +111,17 @@ func genC17(g *prng.R) c17Case {
 		if level < depth {
 			next := chain(level + 1)
 			key := pick(g, "inReplyTo", "inReplyTo", "tag", "object")
-			// siblings: the continuation of the chain is not always the first value
-			if g.Chance(1, 3) {
+			// a stub of the next document embedded next to its IRI: the stub
+			// leads nowhere, the document behind the IRI does
+			if ns, isIRI := next.(string); isIRI && g.Chance(1, 5) {
+				stub := M{"type": "Note", "id": ns}
+				if g.Bool() {
+					doc[key] = A{stub, ns}
+				} else {
+					doc[key] = A{ns, stub}
+				}
+			} else if g.Chance(1, 3) {
+				// siblings: the continuation of the chain is not always the first value
 				cnt++
 				sib := fmt.Sprintf("%s/notes/sibling%d", pick(g, R1, R2), cnt)
 				var sv interface{} = sib
